@@ -57,7 +57,11 @@ func runVCs(vcs []VC, workDir string, timeout time.Duration, par int) []vcResult
 			sem <- struct{}{}
 			defer func() { <-sem }()
 			file := filepath.Join(workDir, sanitizeFile(vcs[i].Name)+".smt2")
-			out[i].res = solve(vcs[i].Script, file, timeout, vcs[i].ExpectSat)
+			to := timeout
+			if vcs[i].ExpectSat && to > 2*time.Second {
+				to = 2 * time.Second
+			}
+			out[i].res = solve(vcs[i].Script, file, to, vcs[i].ExpectSat)
 		}(i)
 	}
 	wg.Wait()
@@ -101,18 +105,17 @@ func devCmd(args []string) {
 	for _, r := range res {
 		st := r.res.Status
 		if r.vc.ExpectSat {
-			if st == "sat" {
-				st = "ok(sat)"
+			if st != "unsat" {
+				st = "ok(canary)"
 			} else {
 				st = "VACUOUS:" + st
 			}
 		}
 		counts[st]++
-		if *verbose || (st != "unsat" && st != "ok(sat)") {
+		if *verbose || (st != "unsat" && st != "ok(canary)") {
 			fmt.Printf("%-12s %-70s %s %.2fs %s\n", st, r.vc.Name, r.res.Solver, r.res.Seconds, truncate(strings.ReplaceAll(r.res.Output, "\n", " "), 150))
 		}
 	}
 	fmt.Println(counts, fmt.Sprintf("%.1fs", time.Since(start).Seconds()))
 }
 
-func checkCmd(args []string) int { return 0 }
